@@ -6,7 +6,9 @@ import (
 	"context"
 	"errors"
 	"fmt"
+	"go.opentelemetry.io/collector/pdata/pcommon"
 	"go.opentelemetry.io/collector/pdata/plog"
+	"go.opentelemetry.io/collector/pdata/ptrace"
 	"os"
 	"runtime/debug"
 	"strings"
@@ -97,10 +99,22 @@ func runMemLimit(o opts, out *Output) {
 	for c := 0; c < o.n; c++ {
 		g := &OGen{r: r.Fork(), Wide: r.Chance(40), Mono: monoPick(r)}
 		nb := 1 + r.Intn(4)
+		subsets := c%3 == 2
+		if subsets {
+			// histories built around a refusal at a chosen related table X (one huge value): the next batch carries X again and,
+			// behind it, a table Y the refused batch did not carry; the one after carries Y without X (all 49 pairs X, Y over the
+			// cases)
+			nb = 5
+		}
 		prod := arrow_record.NewProducer()
 		var bars []*colarspb.BatchArrowRecords
 		for i := 0; i < nb; i++ {
 			td := g.Traces(TShape{MaxRes: 2, MaxScopes: 2, MaxSpans: 1 + r.Intn(12)})
+			if subsets {
+				if h := abandonHistory(c / 3); i < len(h) {
+					td = h[i]
+				}
+			}
 			if td.SpanCount() == 0 {
 				continue
 			}
@@ -131,7 +145,12 @@ func runMemLimit(o opts, out *Output) {
 		_ = base.Close()
 		prevFirstRefusal := -1
 		var perLimit []map[string]any
-		for _, lim := range limits {
+		caseLimits := limits
+		if subsets {
+			// a dense sweep, so that the first refusal falls on every payload position of some batch
+			caseLimits = []uint64{96 << 10, 160 << 10, 224 << 10, 1 << 20, 70 << 20}
+		}
+		for _, lim := range caseLimits {
 			mp := &capProvider{}
 			cons := arrow_record.NewConsumer(arrow_record.WithMemoryLimit(lim), arrow_record.WithMeterProvider(mp))
 			firstRefusal := len(bars)
@@ -266,6 +285,99 @@ Print marks_mismatch.
 `)
 	out.Lists = append(out.Lists, "marks_mismatch")
 	out.Extra["stats"] = stats
+}
+
+// tableSet: which related tables a trace batch carries (bit i of present), and which one holds one huge value (huge = -1: none).
+// tables: 0 resource attrs, 1 scope attrs, 2 span attrs, 3 span events, 4 event attrs, 5 span links, 6 link attrs
+func tableSetTraces(n, batch int, present uint, huge int) ptrace.Traces {
+	has := func(i int) bool { return present&(1<<uint(i)) != 0 }
+	big := func(i int, s string) string {
+		if huge == i {
+			return s + strings.Repeat("x", 300_000)
+		}
+		return s
+	}
+	td := ptrace.NewTraces()
+	rs := td.ResourceSpans().AppendEmpty()
+	if has(0) {
+		rs.Resource().Attributes().PutStr("service.name", big(0, fmt.Sprintf("svc-%d", batch)))
+	}
+	ss := rs.ScopeSpans().AppendEmpty()
+	if has(1) {
+		ss.Scope().Attributes().PutStr("lib", big(1, fmt.Sprintf("lib-%d", batch)))
+	}
+	for i := 0; i < n; i++ {
+		sp := ss.Spans().AppendEmpty()
+		sp.SetName(fmt.Sprintf("span-%d", i%3))
+		sp.SetSpanID(pcommon.SpanID{1, byte(batch), byte(i >> 8), byte(i), 0, 0, 0, 1})
+		first := i == 0
+		if has(2) {
+			v := fmt.Sprintf("value-%d-%d", batch, i%5)
+			if first {
+				v = big(2, v)
+			}
+			sp.Attributes().PutStr("k", v)
+			sp.Attributes().PutStr("old", fmt.Sprintf("value-%d-%d", (batch+5)%6, i%5)) // values of earlier batches come back
+		}
+		if has(3) || has(4) {
+			ev := sp.Events().AppendEmpty()
+			nm := fmt.Sprintf("event-%d-%d", batch, i%4)
+			if first {
+				nm = big(3, nm)
+			}
+			ev.SetName(nm)
+			if has(4) {
+				v := fmt.Sprintf("ev-%d-%d", batch, i%5)
+				if first {
+					v = big(4, v)
+				}
+				ev.Attributes().PutStr("e", v)
+				ev.Attributes().PutStr("old", fmt.Sprintf("ev-%d-%d", (batch+5)%6, i%5))
+			}
+		}
+		if has(5) || has(6) {
+			lk := sp.Links().AppendEmpty()
+			lk.SetSpanID(pcommon.SpanID{2, byte(batch), byte(i >> 8), byte(i), 0, 0, 0, 2})
+			ts := fmt.Sprintf("t=%d", batch)
+			if first {
+				ts = big(5, ts)
+			}
+			lk.TraceState().FromRaw(ts)
+			if has(6) {
+				v := fmt.Sprintf("lk-%d-%d", batch, i%5)
+				if first {
+					v = big(6, v)
+				}
+				lk.Attributes().PutStr("l", v)
+				lk.Attributes().PutStr("old", fmt.Sprintf("lk-%d-%d", (batch+5)%6, i%5))
+			}
+		}
+	}
+	return td
+}
+
+// abandonHistory: every table exists; batch 1 is refused at table X (one huge value); batch 2 carries X again and, behind it,
+// table Y that batch 1 did not carry, with new values; batch 3 carries Y alone; batch 4 everything.
+func abandonHistory(k int) []ptrace.Traces {
+	x, y := k%7, (k/7)%7
+	all := uint(0x7f)
+	without := func(t int) uint {
+		m := all &^ (1 << uint(t))
+		if t == 3 {
+			m &^= 1 << 4 // no events: no event attributes either
+		}
+		if t == 5 {
+			m &^= 1 << 6
+		}
+		return m
+	}
+	return []ptrace.Traces{
+		tableSetTraces(6, 0, all, -1),
+		tableSetTraces(6, 1, without(y)|1<<uint(x), x),
+		tableSetTraces(6, 2, all, -1),
+		tableSetTraces(6, 3, 1<<uint(y), -1), // Y alone (the tables between X and Y, marked by batch 1, would be met first)
+		tableSetTraces(6, 4, all, -1),
+	}
 }
 
 // runSchemaSwitch: a big batch A, then a small batch B in which every payload type of A appears again under a NEW schema id
